@@ -678,18 +678,18 @@ def _distribute_field(b, i):
     return None
 
 
-def _mk_if(c, t, e):
+def _mk_if_raw(c, t, e):
     """if c {t} else {e} with the boolean identities applied"""
     if c[0] == "op" and c[1] == "Not" and len(c[2]) == 1:
-        return _mk_if(c[2][0], e, t)
+        return _mk_if_raw(c[2][0], e, t)
     if c[0] == "iflet-not":
-        return _mk_if(("iflet", c[1], c[2]), e, t)
+        return _mk_if_raw(("iflet", c[1], c[2]), e, t)
     if c[0] == "op" and c[1] in ("&&", "||"):
         nc = _not(c)
         if _negs(nc) < _negs(c):
-            return _mk_if(nc, e, t)         # if !a && !b { t } else { e }  ==  if a || b { e } else { t }
+            return _mk_if_raw(nc, e, t)         # if !a && !b { t } else { e }  ==  if a || b { e } else { t }
     if c[0] == "op" and c[1] == "!=" and len(c[2]) == 2 and not _diverges(t) and not _diverges(e):
-        return _mk_if(("op", "==", c[2]), e, t)
+        return _mk_if_raw(("op", "==", c[2]), e, t)
     if _diverges(e) and not _diverges(t) and not _is_unit(t):
         return ("early", [(_not(c), e)], t)          # `if c { v } else { return .. }` is a guard clause followed by v
     if _diverges(t) and not _diverges(e) and not _is_unit(e):
@@ -714,11 +714,134 @@ def _mk_if(c, t, e):
         if len(diff) == 1:
             i = diff[0]
             args = list(t[2])
-            args[i] = _mk_if(c, t[2][i], e[2][i])
+            args[i] = _mk_if_raw(c, t[2][i], e[2][i])
             if t[1] == "Ok" and len(args) == 1:
                 return _mk_ok(args[0])
             return ("call", t[1], args)
     return ("if", c, t, e)
+
+
+
+def _mk_if(c, t, e):
+    """if c {t} else {e}: boolean identities (_mk_if_raw), then the decision normal form for decision tables (_decide)"""
+    r = _mk_if_raw(c, t, e)
+    if r[0] == "if" and not _DECIDING[0]:
+        d = _decide(r)
+        if d is not None:
+            return d
+    return r
+
+
+_DECIDING = [False]
+
+
+def _cond_atoms(c, out):
+    if c[0] == "op" and c[1] in ("&&", "||") and len(c[2]) == 2:
+        _cond_atoms(c[2][0], out)
+        _cond_atoms(c[2][1], out)
+    elif c[0] == "op" and c[1] == "Not" and len(c[2]) == 1:
+        _cond_atoms(c[2][0], out)
+    elif c[0] == "iflet-not":
+        out.append(("iflet", c[1], c[2]))
+    elif c[0] == "op" and c[1] == "!=" and len(c[2]) == 2:
+        out.append(("op", "==", c[2]))
+    else:
+        out.append(c)
+
+
+def _atoms_of(c):
+    out = []
+    _cond_atoms(c, out)
+    return out
+
+
+def _cond_eval(c, asg):
+    if c[0] == "op" and c[1] == "&&" and len(c[2]) == 2:
+        return _cond_eval(c[2][0], asg) and _cond_eval(c[2][1], asg)
+    if c[0] == "op" and c[1] == "||" and len(c[2]) == 2:
+        return _cond_eval(c[2][0], asg) or _cond_eval(c[2][1], asg)
+    if c[0] == "op" and c[1] == "Not" and len(c[2]) == 1:
+        return not _cond_eval(c[2][0], asg)
+    if c[0] == "iflet-not":
+        return not asg[_show(("iflet", c[1], c[2]))]
+    if c[0] == "op" and c[1] == "!=" and len(c[2]) == 2:
+        return not asg[_show(("op", "==", c[2]))]
+    return asg[_show(c)]
+
+
+def _decide(t):
+    """An if / else tree that is a decision TABLE - the same pure condition is asked in more than one place (`if a && b {..} else if
+    a {..} else if b {..} else {..}`, guard clauses over `!a && !b`, ..) - is written as the reduced decision tree over its atomic
+    conditions in a fixed (alphabetical) order. `match (a, b) { (true, true) => .., .. }` takes the same form (_decide_table)."""
+    conds = []
+
+    def peel(x):
+        # Ok(if c { a } else { b }) is if c { Ok(a) } else { Ok(b) } (the factored form is rebuilt by _mk_if_raw)
+        while x[0] == "call" and x[1] in ("Ok", "Some", "Err") and len(x[2]) == 1 and x[2][0][0] == "if":
+            i = x[2][0]
+            x = ("if", i[1], ("call", x[1], [i[2]]), ("call", x[1], [i[3]]))
+        return x
+
+    def spine(x):
+        x = peel(x)
+        if x[0] == "if":
+            conds.append(x[1])
+            spine(x[2])
+            spine(x[3])
+    spine(t)
+    if len(conds) < 2:
+        return None
+    occ = []
+    for c in conds:
+        a = []
+        _cond_atoms(c, a)
+        occ.append({_show(x): x for x in a})
+    atoms = {}
+    for o in occ:
+        atoms.update(o)
+    if not (2 <= len(atoms) <= 3):
+        return None
+    if not any(sum(1 for o in occ if k in o) >= 2 for k in atoms):
+        return None                     # every condition asked once: a plain else-if chain, left as written
+    if any(x[0] in ("try", "seq", "early", "ret", "mut", "for") for a in atoms.values() for x in subterms(a)):
+        return None                     # conditions that can leave the function or have effects are not reordered
+
+    def leaf(x, asg):
+        while True:
+            x = peel(x)
+            if x[0] == "if":
+                x = x[2] if _cond_eval(x[1], asg) else x[3]
+            elif x[0] == "early" and x[1] and all(all(_show(a) in asg for a in _atoms_of(c)) for c, _v in x[1] if c != ("lit", "match")) \
+                    and not any(c == ("lit", "match") for c, _v in x[1]):
+                # guard clauses over the same conditions are decided as well
+                hit = next((v for c, v in x[1] if _cond_eval(c, asg)), None)
+                if hit is not None:
+                    return hit
+                x = x[2]
+            else:
+                return x
+    names = sorted(atoms)
+    return _decide_table(names, atoms, lambda asg: leaf(t, asg))
+
+
+def _decide_table(names, atoms, leaf_of):
+    def build(i, asg):
+        if i == len(names):
+            return leaf_of(asg)
+        a = dict(asg)
+        a[names[i]] = True
+        tb = build(i + 1, a)
+        a = dict(asg)
+        a[names[i]] = False
+        eb = build(i + 1, a)
+        if tb == eb:
+            return tb
+        return _mk_if_raw(atoms[names[i]], tb, eb)
+    _DECIDING[0] = True
+    try:
+        return build(0, {})
+    finally:
+        _DECIDING[0] = False
 
 
 def rewrite(t, fn):
@@ -2291,6 +2414,18 @@ class Norm:
                 arms.append((pat_repr(a["pat"]), g, bt))
             arms = self._expand_wildcard_arm(e, arms)
             arms = _expand_bool_tuple_arms(scr, arms)
+            if scr[0] == "tup" and 2 <= len(scr[1]) <= 3 and len(arms) == 2 ** len(scr[1]) and all(g is None for _p, g, _b in arms) \
+                    and all(re.fullmatch(r"\((true|false)(,(true|false))*\)", p) for p, _g, _b in arms) \
+                    and not any(x[0] in ("try", "seq", "early", "ret", "mut", "for") for a in scr[1] for x in subterms(a)):
+                # match (a, b) { (true, true) => .., .. }: the decision table over the components
+                comps = {_show(a): a for a in scr[1]}
+                if len(comps) == len(scr[1]) and all(_atoms_of(a) == [a] for a in scr[1]):
+                    by_pat = {p: b for p, _g, b in arms}
+                    order = [_show(a) for a in scr[1]]
+
+                    def leaf_of(asg, order=order, by_pat=by_pat):
+                        return by_pat["(" + ",".join("true" if asg[k] else "false" for k in order) + ")"]
+                    return _decide_table(sorted(comps), comps, leaf_of)
             # `match x { v => body }` single irrefutable binding arm (format_ident! etc.)
             if len(arms) == 1 and e["arms"][0]["pat"].get("k") == "Bind":
                 return arms[0][2]
